@@ -3,6 +3,7 @@
 package transfer
 
 import (
+	"context"
 	"hash/crc32"
 
 	"github.com/sheerbytes/sheerbytes/pkg/manifest"
@@ -100,3 +101,12 @@ func VerifHashFileChunk(path string, idx uint32, chunk uint32, size int64, alg b
 func VerifParseHashAlg(s string) (byte, error) { return parseHashAlg(s) }
 
 const VerifResumeHashUnknown = resumeHashUnknown
+
+// the FileBegin wake-up registry of the receiver (harness mode "fwstorm")
+type VerifFileWait struct{ r *fileWaitRegistry }
+
+func VerifNewFileWait() *VerifFileWait { return &VerifFileWait{r: newFileWaitRegistry()} }
+func (v *VerifFileWait) Wait(ctx context.Context, id uint64, ready func() bool) bool {
+	return v.r.wait(ctx, id, ready)
+}
+func (v *VerifFileWait) Signal(id uint64) { v.r.signal(id) }
